@@ -19,7 +19,9 @@ RULE = (
     'returned record, the final log and ALL state fields must be equal; (b) '
     'the recorded client script is executed a second time from scratch and '
     'must give the identical log and state; (c) at a random point a deepcopy '
-    'is taken: no mutable container may be shared (identity scan over all '
+    'is taken (at a random call count, or at the first decision of a '
+    'chosen phase -- showdown, kill, push, pull, collect -- so that every '
+    'phase is copied in): no mutable container may be shared (identity scan over all '
     'nested lists/deques/sets/pots), the copy must not change while the '
     'original continues, the rest of the script applied to the copy must '
     'give the same log and state, and a DIFFERENT continuation played on a '
@@ -35,10 +37,13 @@ ASSUMPTIONS = [
 ]
 CASES = {'quick': 7000, 'thorough': 90000}
 TIME = {'quick': 70, 'thorough': 560}
-MIN_NONTRIVIAL = {'quick': 1500, 'thorough': 15000}
+MIN_NONTRIVIAL = {'quick': 700, 'thorough': 8000}
 REQUIRED = ('log_replays', 'double_runs', 'copies_taken',
             'copy_same_continuations', 'copy_divergent_continuations',
-            'containers_scanned', 'post_hand_shows_logged')
+            'containers_scanned', 'post_hand_shows_logged',
+            'copies_in_phase:push', 'copies_in_phase:kill',
+            'copies_in_phase:showdown', 'copies_in_phase:pull',
+            'copies_in_phase:bet', 'copies_in_phase:deal')
 
 CUSTOMS = ('kuhn', 'draw5', 'stud5', 'greek', 'courchevel', 'holdem8',
            'plo8', 'badugi1', 'razzdraw', 'random')
@@ -75,12 +80,23 @@ class CopyMonitor(Monitor):
         rng = random.Random(ctx.cfg['seed'] ^ 0x5eed)
         self.rng = rng
         self.target = rng.choice([0, 1, 2, 3, 5, 8, 12, 20, 35, 60])
+        # one hand in three copies at the first decision of a chosen phase
+        # instead (the late phases are otherwise rarely hit by a call count)
+        self.target_phase = rng.choice(
+            [None, None, None, None, 'push', 'push', 'kill', 'showdown',
+             'pull', 'collect'])
 
     def on_decision(self, ctx, state, avail):
         if self.copy is not None or not avail:
             return
-        if len(ctx.script) < self.target and self.rng.random() > 0.03:
+        phase = driver.PHASE[avail[0]]
+        if self.target_phase is not None:
+            if phase != self.target_phase and (
+                    state.status and len(ctx.script) < 150):
+                return
+        elif len(ctx.script) < self.target and self.rng.random() > 0.03:
             return
+        ctx.counters[f'copies_in_phase:{phase}'] += 1
         self.at = len(ctx.script)
         self.nops_at = len(state.operations)
         self.copy = deepcopy(state)
